@@ -148,6 +148,22 @@ def sim_schedules(specdir, module, cfg, scr, num, depth, sd, procs=4, timeout=60
     return behaviours
 
 
+def bfs_schedules(specdir, module, cfg, scr, timeout=600):
+    """TLC breadth-first run of a (small) sweep specification whose Emit invariant prints every complete behaviour."""
+    rc, out, dt = run_tlc(specdir, module, cfg, scr, workers=1, timeout=timeout)
+    if "Model checking completed. No error has been found." not in out:
+        raise Inconclusive("TLC sweep failed on %s/%s (model error):\n%s" % (module, cfg, out[-5000:]))
+    behaviours, seen = [], set()
+    for m in re.finditer(r'<<"TRACE", "(.*)">>', out):
+        js = unquote_tla_string(m.group(1))
+        h = hashlib.sha1(js.encode()).hexdigest()
+        if h not in seen:
+            seen.add(h)
+            behaviours.append(json.loads(js))
+    log("[sweep] %s/%s: %d behaviours" % (module, cfg, len(behaviours)))
+    return behaviours
+
+
 def harness(bin_, args, timeout=1200):
     p = subprocess.run([bin_] + args, stdout=subprocess.PIPE, stderr=subprocess.PIPE, text=True, timeout=timeout)
     if p.returncode != 0:
